@@ -77,6 +77,8 @@ func equalSecrets(thorough bool) [][]byte {
 
 var c20msg = []byte("fixed public message for C20")
 
+var c20fixedPoint = []byte{0x42, 0x9a, 0x13, 0x07, 0x5e, 0xf1, 0x20, 0x88, 0x61, 0x0c, 0xd3, 0x3b, 0x90, 0x7f, 0x55, 0x21, 0xe8, 0x04, 0xbb, 0x6d, 0x19, 0xc2, 0x73, 0xa6, 0x0e, 0x58, 0x97, 0x3c, 0xf4, 0x2d, 0x81, 0x36}
+
 var c20scenarios = []c20scenario{
 	{"NewKeyFromSeed", seedSecrets, nil, func(s []byte, _ interface{}) { ed25519.NewKeyFromSeed(s) }},
 	{"GenerateKey", seedSecrets, nil, func(s []byte, _ interface{}) { ed25519.GenerateKey(bytes.NewReader(s)) }},
@@ -97,6 +99,10 @@ var c20scenarios = []c20scenario{
 	{"EdPrivateKeyToX25519", seedSecrets, func(s []byte) interface{} { return stdKey(s) }, func(s []byte, k interface{}) { EdPrivateKeyToX25519(k.(ed25519.PrivateKey)) }},
 	{"PrivateKey.Equal(receiver secret)", equalSecrets, nil, func(s []byte, _ interface{}) { ed25519.PrivateKey(s).Equal(c20fixedOther) }},
 	{"PrivateKey.Equal(argument secret)", equalSecrets, nil, func(s []byte, _ interface{}) { c20fixedOther.Equal(ed25519.PrivateKey(s)) }},
+	// advisory (name prefix "advisory:"): the generic X25519 path is not among the operations the
+	// property lists (until fix F5 it ran inside golang.org/x/crypto); it is traced because the ladder
+	// now lives in this library, and a divergence is recorded in the evidence, not raised
+	{"advisory: X25519 generic ladder", func(t bool) [][]byte { return nibScalars(t) }, nil, func(s []byte, _ interface{}) { X25519(s, c20fixedPoint) }},
 	{"PrivateKey.Public/Seed", seedSecrets, func(s []byte) interface{} { return stdKey(s) }, func(s []byte, k interface{}) {
 		k.(ed25519.PrivateKey).Public()
 		k.(ed25519.PrivateKey).Seed()
@@ -161,6 +167,11 @@ func jobC20(c *rt.Ctx) {
 				short := where
 				if j := strings.Index(short, " "); j > 0 {
 					short = short[:j]
+				}
+				if strings.HasPrefix(sc.name, "advisory:") {
+					c.Extra("advisory_divergences", 1)
+					c.Sample(map[string]interface{}{"advisory_scenario": sc.name, "diverges_at": where})
+					break
 				}
 				c.Violation(fmt.Sprintf("C20 %s diverges at %s", sc.name, short),
 					fmt.Sprintf("scenario %s: executions that differ only in the secret follow different traces; first divergence at %s (events %q vs %q; %d vs %d events)", sc.name, where, ea, eb, a.N, b.N),
